@@ -569,6 +569,7 @@ def run(chk, replay=None):
         broken.append("driver answered %d lines for %d requests" % (len(dout), len(dlines)))
 
     found = []
+    failed_requests = set()
     nanskips = 0
     at_lo = 0
     law_athi = 0
@@ -766,7 +767,10 @@ def run(chk, replay=None):
                 if x == hi:
                     law_athi += 1
         tags = {"kind": op, "clause": " ".join(bad)}
-        if bad:
+        if bad and i in failed_requests:
+            pass            # a later step of a request whose history already left the property: a consequence
+        elif bad:
+            failed_requests.add(i)
             found.append((size, "%s: the observed execution breaks the property (%s) – request `%s`; step: %s"
                           % (op, " ".join(bad), req[:400], (dl or "")[:700]),
                           {"request": req, "step": dl, "oracle": bad, "driver": d}, tags))
